@@ -23,16 +23,148 @@ def entry(pid, technique, text, ref):
     CHECKS[pid] = (technique, text, ref)
 
 
-entry("C03",
-      "Hypothesis property-based testing against an independent O(n m^2) "
-      "reference implementation plus metamorphic relations",
+H = "Hypothesis property-based testing"
+entry("C01", H + " with round-trip oracle over generated transform "
+      "parameters (branch values weighted) and domain points constructed in "
+      "the transformed variable",
+      "13 sub-checks (one per transform class); every generated instance is "
+      "checked both ways (backward o forward, forward o backward) to 1e-6 of "
+      "the stated scale, on two successive parameter settings of the same "
+      "instance, plus backward_censored. A wrong branch, sign or constant "
+      "gives an O(1) error on most cases of its class.",
+      "DESIGN.md section 3, C01")
+entry("C02", H + " with finite-difference and ordered-pair oracles",
+      "5-point central differences with exactly representable steps against "
+      "jacobian (1e-4), positivity, and monotonicity of forward on generated "
+      "ordered pairs down to one ulp apart with an explicit rounding-noise "
+      "model per class.",
+      "DESIGN.md section 3, C02")
+entry("C03", H + " against an independent O(n m^2) reference implementation "
+      "plus metamorphic relations",
       "Generated (obs, ensemble) pairs over tie-heavy, outlier, constant and "
       "continuous regimes are compared with the textbook definition and the "
       "decomposition identities; permutation, shift, scale and NaN-removal "
-      "relations are checked on every case. Exploration level: a wrong bin, "
-      "tie rule or uncertainty term produces an O(1) discrepancy on a large "
-      "fraction of the generated cases.",
+      "relations are checked on every case.",
       "DESIGN.md section 3, C03")
+entry("C04", H + " against textbook definitions written independently, "
+      "invariances and direct pair counting",
+      "Continuous scores on transformed series, excludenull against the "
+      "sub-series of complete pairs, confusion matrices against pair counts, "
+      "binary scores against contingency-table formulas with odds ratios "
+      "below/at/above 1.",
+      "DESIGN.md section 3, C04")
+entry("C05", "Hypothesis-driven fuzzing of every kernel entry point, each "
+      "example executed in a forked child under AddressSanitizer + "
+      "UndefinedBehaviorSanitizer, failures bucketed by (error, frame) and "
+      "the search repeated with found buckets excluded",
+      "37 entry points x boundary shapes (lengths 0/1/2, NaN/inf/huge, "
+      "out-of-range cells and options). A sanitizer report or signal is the "
+      "failure signal; Python exceptions are passes. Instrumented execution "
+      "is what makes silent out-of-bounds accesses visible.",
+      "DESIGN.md section 3, C05")
+entry("C06", "Exhaustive small-scope enumeration plus Hypothesis random "
+      "grids against an independent graph model",
+      "Every flow grid up to 2x2 / 1x3 over 10 codes x every outlet x inlet "
+      "x river start is compared with a Python reachability model built "
+      "from the literal ESRI code table; random grids to 12x12 (40x40 "
+      "thorough) with cycles, forests, inlets on chains.",
+      "DESIGN.md section 3, C06")
+entry("C07", H + " plus exhaustive lattice enumeration against the "
+      "closed-form numbering",
+      "Generated geometries (cell sizes over 8 orders of magnitude, large "
+      "origins, single rows/columns) with points inside every footprint and "
+      "outside on all 8 sides from 1e-9 to 1e6 cells; all quarter-lattice "
+      "points of every grid up to 6x6.",
+      "DESIGN.md section 3, C07")
+entry("C08", H + " against a group-by reference model and calendar "
+      "arithmetic",
+      "Generated run-length index vectors (int32 extremes), NaN patterns "
+      "per group, all operators and maxnan values against np.unique-based "
+      "group reductions, total conservation, rejection of decreasing "
+      "indices; monthly2daily against the calendar and monthly sums.",
+      "DESIGN.md section 3, C08")
+entry("C09", H + " round-trip through the file system in all storage "
+      "modes",
+      "Generated frames (text with separators/quotes, integers to 2^53, "
+      "floats under four formats), comment dictionaries with colons, plain "
+      "/ zip under four kinds of names / archive member; everything read "
+      "back must equal what was written to the precision of the format.",
+      "DESIGN.md section 3, C09")
+entry("C10", H + " against an independent Weigel-Mason implementation, "
+      "rank invariances and textbook statistics",
+      "Lattice-valued ensembles with exact ties across forecasts; monotone "
+      "maps and member permutations; PIT counting oracle and pseudo-PIT "
+      "flag; CvM / AD statistics from their formulas, order independence, "
+      "p-value ranges, rejection of out-of-range data.",
+      "DESIGN.md section 3, C10")
+entry("C11", "Exhaustive small-scope enumeration plus Hypothesis random "
+      "grids against the graph model of C06",
+      "Every small grid with a default and a non-uniform field whose subset "
+      "sums are all distinct; random forests with fields of five kinds, "
+      "three flow dtypes, nprint and cap options; accumulation must equal "
+      "the sum over all upstream cells.",
+      "DESIGN.md section 3, C11")
+entry("C12", "Model-based stateful testing: exhaustive operation sequences "
+      "to depth 3/4, a Hypothesis RuleBasedStateMachine over a pool of live "
+      "vectors, and generated interleavings of transform calls, all against "
+      "a plain-Python reference model",
+      "After every step the full observable state (values, bounds, "
+      "defaults, names, flags, to_dict) of every live vector equals its "
+      "model, so leaks between clones / dictionary copies and lost flags "
+      "show at the step where they happen.",
+      "DESIGN.md section 3, C12")
+entry("C13", H + " round-trip oracle over dtypes, byte orders, loaders, "
+      "clip boxes and catchments",
+      "Bit-exact comparison of data and exact comparison of georeferencing "
+      "after save/load (3 loaders, byte order I and M), dictionary/JSON, "
+      "clone (independence both ways) and clip (block and coinciding "
+      "centres); catchment dictionaries with inlets.",
+      "DESIGN.md section 3, C13")
+entry("C14", H + " against an exact integer-second reference integrator",
+      "Irregular series with duplicates, boundary stamps, long gaps, NaN "
+      "and negative values, both periods, rainfall flag, four index units "
+      "and four DST-free zones; every period is classified must-be-missing "
+      "/ must-equal-the-reference / either.",
+      "DESIGN.md section 3, C14")
+entry("C15", H + " against an exact rational crossing-number oracle plus "
+      "metamorphic relations",
+      "Lattice, random and star polygons with points level with vertices; "
+      "exact Fraction arithmetic decides inside/outside, points within 1e-6 "
+      "of the boundary are not judged; vertex-list rotation/reversal/"
+      "closing and exact dyadic shift/scale must not change answers.",
+      "DESIGN.md section 3, C15")
+entry("C16", H + " with a validity predicate in exact dyadic arithmetic",
+      "Weights must lie between the count of fine centres strictly inside "
+      "and inside-or-on-edge of each coarse cell, totals likewise, area "
+      "grid placement exact; Voronoi weights equal nearest-point fractions "
+      "with ties to the lowest index.",
+      "DESIGN.md section 3, C16")
+entry("C17", H + " against a direct Python recursion and the inverse "
+      "relation",
+      "Orders 1..10, coefficients with sum|phi| up to 1.5, NaN anywhere "
+      "including the first steps, default/explicit mean and initial value; "
+      "sim = recursion, residual(sim(e)) = e, sim(residual(y)) = y, "
+      "rejection of orders 0/11 and NaN parameters.",
+      "DESIGN.md section 3, C17")
+entry("C18", "Snapshot-and-compare over a registry of ~120 call "
+      "specifications: exhaustive over argument variants (layout x dtype x "
+      "container) plus Hypothesis-generated data",
+      "Byte-level snapshots of every argument before, between and after two "
+      "identical calls (seed re-applied) and comparison of the two results. "
+      "An in-place sort, jitter or column insertion changes the snapshot.",
+      "DESIGN.md section 3, C18")
+entry("C19", "Exhaustive enumeration of (nelements, nbatch) pairs plus "
+      + H + " of option dictionaries against itertools.product",
+      "All pairs up to 80 (400 thorough) with every batch index; generated "
+      "option/context dictionaries with bare scalars and renamed keys; "
+      "JSON round trip compared both ways; find against direct filtering.",
+      "DESIGN.md section 3, C19")
+entry("C20", H + " against brute-force / numpy reference statistics",
+      "Stratum membership for lhs, symmetry for ppos, rank monotonicity, "
+      "brute-force dominance with NaN coordinates, numpy percentiles of "
+      "the finite values for box plots (by groups) and violins, kde "
+      "profile normalisation.",
+      "DESIGN.md section 3, C20")
 
 
 def main():
